@@ -21,13 +21,14 @@ RULE = (
     "send ends in exactly one of: (1) the reference-formatted line is written once during the call and nothing else; (2) nothing written, no "
     "error, the destination is sleeping, and after that node's next wake (heartbeat response / pre-sleep; for 1.x after a version report "
     "upgrading to 2.2) the line has been written exactly once; (3) an AIOMySensorsError. A non-message must raise InvalidMessageError. "
-    "A 'race' kind replays small send-versus-flush configurations under every schedule (C09's scheduler): a send that returned normally must still reach the transport. Enumerated part: every command x type 0..max+1 of the version's table x destination x buffering. Non-trivial = command other than set, "
+    "A 'hist' kind runs histories of sends (all commands) interleaved with received wake, presentation and other messages on one gateway: every send must end in one of the three ways, and a line held for a sleeping node (the latest per child/type for set commands) is owed at that node's next wake. A 'race' kind replays small send-versus-flush configurations under every schedule (C09's scheduler): a send that returned normally must still reach the transport. Enumerated part: every command x type 0..max+1 of the version's table x destination x buffering. Non-trivial = command other than set, "
     "or a sleeping destination; distinct = distinct case JSON."
 )
 ASSUMPTIONS = [
     "for protocols 1.4/1.5, which have no wake message, 'next wake' is observed after the gateway reports 2.2.0 and the node sends a pre-sleep notification",
 ]
 
+DELETABLE = ("ops",)
 DEST = 7
 NONMSG = ("none", "str", "int", "dict", "object", "list", "bytes", "float", "tuple")
 
@@ -50,7 +51,7 @@ def strategy(tier: str):
         }
     )
     odd = st.fixed_dictionaries({"kind": st.just("nonmsg"), "version": gen.versions, "obj": st.sampled_from(NONMSG), "buffer": st.sampled_from((None, False))})
-    return st.one_of(normal, normal, normal, normal, odd)
+    return gen.weighted((5, normal), (1, odd), (3, _hist_strategy()))
 
 
 def enumerate_cases(tier: str):
@@ -123,11 +124,116 @@ def _run_race(case: dict) -> Outcome:
     return Outcome(ok=True, nontrivial=raced, classes=classes, extra_evals=count - 1)
 
 
+def _hist_strategy():
+    node = st.sampled_from((5, 6, 6, 7, 8))
+
+    def retarget(m, n):
+        return [n] + m[1:]
+
+    send = st.builds(lambda m, n, b: ["send", retarget(m, n), b], gen.wellformed_message(), node, st.sampled_from((None, None, True, False)))
+    send_set = st.builds(lambda n, c, t, v, b: ["send", [n, c, 1, 0, t, v], b], node, st.sampled_from((0, 1)), st.sampled_from((0, 2)), gen.short_payloads, st.sampled_from((None, None, False)))
+    wake = st.builds(lambda n, t: ["rx", f"{n};255;3;0;{t};7\n"], node, st.sampled_from((22, 32)))
+    other = st.one_of(
+        st.builds(lambda n: ["rx", f"{n};255;0;0;17;2.0\n"], node),
+        st.builds(lambda n, c: ["rx", f"{n};{c};0;0;3;relay\n"], node, st.sampled_from((0, 1))),
+        st.builds(lambda n, c: ["rx", f"{n};{c};1;0;2;1\n"], node, st.sampled_from((0, 1))),
+        st.builds(lambda n: ["rx", f"{n};255;3;0;0;50\n"], node),
+        st.sampled_from((["rx", "0;255;3;0;9;log\n"], ["rx", "junk\n"], ["rx", "0;255;3;0;2;2.2.0\n"])),
+    )
+    return st.fixed_dictionaries(
+        {
+            "kind": st.just("hist"),
+            "version": gen.versions,
+            "ops": st.lists(gen.weighted((4, send), (3, send_set), (2, wake), (2, other)), min_size=6, max_size=25),
+        }
+    )
+
+
+def _run_hist(case: dict) -> Outcome:
+    """Every send in a history ends in one of the three ways; parked lines are owed at the node's next wake."""
+    info = {"parked": 0, "released": 0, "errors": 0}
+
+    async def go() -> Outcome | None:
+        gateway, transport = env.make_gateway(case["version"])
+        env.install_registry(gateway.nodes, {"5": {"children": {"0": {"child_type": 3}}}, "6": {"sleeping": True, "children": {"0": {"child_type": 3}, "1": {"child_type": 3}}},
+                                            "8": {"sleeping": True, "children": {"0": {"child_type": 3}}}})
+        owed: dict[int, dict] = {}  # node -> {key: line}; set commands keep the latest per (child, type)
+
+        async def expect_release(node: int, wrote: list[str], where: str) -> Outcome | None:
+            pending = owed.pop(node, {})
+            for line in pending.values():
+                if wrote.count(line) < 1:
+                    return fail(f"hist:parked-never-written:cmd={line.split(';')[2]}", f"{where}: {line!r} was held for sleeping node {node} and is not among the writes of its wake: {wrote!r}")
+            info["released"] += len(pending)
+            return None
+
+        for idx, op in enumerate(case["ops"]):
+            transport.step = idx
+            where = f"step {idx} {str(op)[:100]} under {case['version']}"
+            if op[0] == "send":
+                msg, buffer = op[1], op[2]
+                line = ref_format(*msg)
+                dest = gateway.nodes.get(msg[0])
+                sleeping = bool(dest is not None and dest.sleeping)
+                status, value = await env.send(gateway, env.mk_message(msg), buffer)
+                wrote = transport.writes_at(idx)
+                if status == "leak":
+                    return fail(f"hist:send-leak:cmd={msg[2]}:{type(value).__name__}", f"{where}: {value!r}")
+                if status == "liberr":
+                    info["errors"] += 1
+                    continue
+                if wrote:
+                    if wrote != [line]:
+                        return fail(f"hist:wrong-write:cmd={msg[2]}", f"{where}: wrote {wrote!r}, the encoded line is {line!r}")
+                    continue
+                if not sleeping:
+                    return fail(f"hist:silently-discarded:cmd={msg[2]}", f"{where}: nothing written, no error, destination {'unknown' if dest is None else 'awake'}")
+                key = (msg[1], msg[4]) if msg[2] == 1 else ("other", idx)
+                owed.setdefault(msg[0], {})[key] = line
+                info["parked"] += 1
+                continue
+            line = op[1]
+            parts = line.split(";")
+            status, value = await env.rx(gateway, line)
+            if status == "leak":
+                continue  # C03's subject
+            if status == "ok" and len(parts) >= 6 and parts[2] == "3" and parts[0].isdigit():
+                node, mtype = int(parts[0]), parts[4]
+                rules = gateway.protocol.VERSION
+                is_wake = (mtype == "22" and rules in ("2.0", "2.1")) or (mtype == "32" and rules == "2.2")
+                if is_wake:
+                    bad = await expect_release(node, transport.writes_at(idx), where)
+                    if bad is not None:
+                        return bad
+        # settle the remaining debts: make the gateway 2.2 and let every debtor announce it is awake
+        transport.step = len(case["ops"])
+        if owed:
+            await env.rx(gateway, "0;255;3;0;2;2.2.0\n")
+        for node in sorted(owed):
+            transport.step += 1
+            if node not in gateway.nodes:
+                continue  # the node vanished from the registry: nothing can wake it (not generated)
+            status, value = await env.rx(gateway, f"{node};255;3;0;32;500\n")
+            bad = await expect_release(node, transport.writes_at(transport.step), f"final wake of node {node}")
+            if bad is not None:
+                return bad
+        return None
+
+    bad = env.run(go())
+    classes = ("hist", f"version={case['version']}") + (("hist-parked",) if info["parked"] else ()) + (("hist-released",) if info["released"] else ())
+    if bad is not None:
+        bad.classes = classes
+        return bad
+    return Outcome(ok=True, nontrivial=info["released"] > 0, classes=classes)
+
+
 def run_case(case: dict) -> Outcome:
     if case["kind"] == "nonmsg":
         return _run_nonmsg(case)
     if case["kind"] == "race":
         return _run_race(case)
+    if case["kind"] == "hist":
+        return _run_hist(case)
     version, dest, msg, buffer = case["version"], case["dest"], case["msg"], case["buffer"]
     command = msg[2]
     line = ref_format(*msg)
